@@ -1211,9 +1211,11 @@ def generate_j_part_cb_from_jump_operators(
     """
     dim = jump_operators[0].shape[0]
     identity = np.eye(dim)
+    # anti-commutator part of the GKSL equation: -1/2 {c^dagger c, rho}
+    products = [opertor.conj().T @ opertor for opertor in jump_operators]
     terms = [
-        mutil.kron(opertor, identity) + mutil.kron(identity, opertor.conj())
-        for opertor in jump_operators
+        mutil.kron(product, identity) + mutil.kron(identity, product.conj())
+        for product in products
     ]
     j_part_cb = -1 / 2 * reduce(add, terms)
     return j_part_cb
